@@ -802,10 +802,13 @@ func (s *Server) readPQClientRequestHidden(hs *HandshakeState, b []byte) (int, e
 		rawLeaf, rawIntermediate, remoteEphemeralBytes []byte
 		c                                              *Certificate
 	)
-	bufCopy := make([]byte, len(b))
+	bufStore := make([]byte, len(b))
+	var bufCopy []byte
 
 	for _, cert := range certList {
-		// Copy buffer for processing
+		// Copy buffer for processing. Every certificate is tried against the
+		// whole request, not against what the previous attempt left over.
+		bufCopy = bufStore
 		copy(bufCopy, b)
 
 		// Recreate duplex at each VM loop
